@@ -798,7 +798,7 @@ class FlowDomain(Domain):
             self._site('map', fr, bi)
             self.on_effect(ip, fr, bi, tok, 'MAP', 'L2')
             # replacing an allocation is an implicit unreference of the old clusters
-            return [(tok | {('RAM', 'L2'), ('MUT', 'L2'), ('UNREF', 'L2', 'RAM')}, 'some()'),
+            return [(tok | {('RAM', 'L2'), ('MUT', 'L2'), ('UNREF', 'L2', 'RAM'), ('F', 'UNMAPPED', 'L2')}, 'some()'),
                     (tok | {('RAM', 'L2'), ('MUT', 'L2')}, 'none')]
         if term.get('trait') == 'meta::table::Table' and term.get('name') == 'set':
             c = table_cls(self.f, self.p.subst(term['a'][0], fr.ctx))
@@ -808,7 +808,7 @@ class FlowDomain(Domain):
             if c == 'L2':
                 self._site('unmap', fr, bi)
                 self.on_effect(ip, fr, bi, tok, 'MAP', 'L2')
-                return [(tok | {('RAM', 'L2'), ('MUT', 'L2'), ('UNREF', 'L2', 'RAM')}, None)]
+                return [(tok | {('RAM', 'L2'), ('MUT', 'L2'), ('UNREF', 'L2', 'RAM'), ('F', 'UNMAPPED', 'L2')}, None)]
             return None
         if callee.endswith('Qcow2Header::set_reftable') or callee.endswith('Qcow2Header::set_l1_table'):
             off = self.cl.classify(ip, fr, term['args'][1], 'off')
@@ -874,6 +874,15 @@ class FlowDomain(Domain):
             self._ob('C04.O4', fr, bi, True, 'release requested by %s of clusters allocated in this section' % freer,
                      site='release@%s(alloc-derived)' % freer)
             return
+        # a cluster taken from a live mapping entry (provenance: L2Entry::allocation) may be released only after
+        # that entry was changed at all
+        offtag = fr.argtags[1] if len(fr.argtags) > 1 else None
+        if offtag is not None and 'OFF:PUNCH' in offtag and ('F', 'UNMAPPED', 'L2') not in tok and not any(x[0] == 'UNREF' for x in tok):
+            self._ob('C04.O4', fr, bi, False, 'release requested by %s of a cluster that is still mapped' % freer, site='release@%s(live)' % freer)
+            self._viol('C04.O4', 'C04.O4:%s:LIVE(L2)' % freer, fr, bi,
+                       'refcount release requested by %s for a cluster taken from an L2 entry that has not been changed yet: if a '
+                       'later step fails (or after a crash) the entry still maps a cluster whose refcount is gone, and the '
+                       'allocator hands it out again; path %s' % (freer, fr.chain_str()))
         ok = not pend
         self._ob('C04.O4', fr, bi, ok, 'release requested by %s; pending unreference: %s' % (freer, pend),
                  site='release@%s' % freer)
